@@ -382,6 +382,8 @@ func c11Appears(res *Result) {
 func runC11(cases string, res *Result) {
 	c11Appears(res)
 	c11Replaced(res)
+	c11TemplatesThatIncludeThemselves(res)
+	c11ValuesHandedOver(res)
 	c11Unreadable(cases, res)
 	readCases(cases, func(c Case) {
 		stream := c.str("stream")
@@ -435,6 +437,12 @@ func runC11(cases string, res *Result) {
 			if msg := evalUnderSettings(c, parseContext(c.str("ctx")), prep, out, class); msg != "" {
 				res.add(Finding{Kind: "oracle", Where: stream + "/settings", Case: c, Expected: evalObserved(out, class), Observed: msg,
 					Detail: "engine settings that have nothing to do with include change what the template renders"})
+				return
+			}
+			res.Hist["by-other-routes"]++
+			if msg := evalByOtherRoutes(c, parseContext(c.str("ctx")), prep, out, class); msg != "" {
+				res.add(Finding{Kind: "oracle", Where: stream + "/routes", Case: c, Expected: evalObserved(out, class), Observed: msg,
+					Detail: "the way the templates reached the engine changes what the including template renders"})
 				return
 			}
 		}
